@@ -675,6 +675,9 @@ func runFrame(fr *frame) {
 		if fr.inRepo {
 			p.repoInstr += int64(len(nonPhis))
 		}
+		if p.profile != nil {
+			p.profile[fr.fn] += int64(len(nonPhis))
+		}
 		if p.instrCount > p.maxInstr && !p.initPhase {
 			panic(pathEnd{StBound, fmt.Sprintf("instruction budget %d exceeded in %s", p.maxInstr, fr.fn)})
 		}
